@@ -124,6 +124,8 @@ def run_case(c):
         order = [[int(x), int(y), int(p)] for (x, y), cores in OrderedDict.items(targets) for p in cores]
         try:
             out = compress_flood_fill_regions(targets)
+            if c.get("clear_after_call") and isinstance(targets, OrderedDict) and c.get("raise_after") is None:
+                targets.clear()              # the caller re-uses its dictionary before looking at the pairs
             out = [[plain(r), plain(m)] for r, m in out]
         except ValueError:
             return ["fail", 0, order]
